@@ -178,9 +178,64 @@ pub fn run_tokens(k: usize, tok: &str) -> String {
     (0..k).map(|j| shift_tag(tok, j)).collect::<Vec<_>>().join("|")
 }
 
+fn parse_step(s: &str) -> Option<(usize, bool)> {
+    match s.strip_suffix('r') {
+        Some(n) => parse_nat(n).map(|n| (n, true)),
+        None => parse_nat(s).map(|n| (n, false)),
+    }
+}
+
+/// item j of a run of k pairs: its tag and the byte its value repeats
+fn run_pair(k: usize, tag0: usize, step: usize, rev: bool, j: usize) -> (usize, u8) {
+    let idx = if rev { k - 1 - j } else { j };
+    (tag0 + idx * step, (0x41 + idx % 26) as u8)
+}
+
+fn msg_items(k: usize, tag0: usize, step: usize, rev: bool, kind: &str, len: usize) -> String {
+    if k == 0 {
+        return "-".to_string();
+    }
+    let mut out = String::new();
+    for j in 0..k {
+        let (tag, b) = run_pair(k, tag0, step, rev, j);
+        if j > 0 {
+            out.push(',');
+        }
+        out.push_str(&format!("{}:{}:{}", tag, kind, to_hex(&vec![b; len])));
+    }
+    out
+}
+
+fn view_wire(k: usize, tag0: usize, step: usize, rev: bool, len: usize) -> Vec<u8> {
+    let mut out = Vec::new();
+    out.extend_from_slice(&(k as u32).to_le_bytes());
+    for i in 0..k.saturating_sub(1) {
+        out.extend_from_slice(&(((i + 1) * len) as u32).to_le_bytes());
+    }
+    for j in 0..k {
+        out.extend_from_slice(&(run_pair(k, tag0, step, rev, j).0 as u32).to_le_bytes());
+    }
+    for j in 0..k {
+        out.extend(std::iter::repeat(run_pair(k, tag0, step, rev, j).1).take(len));
+    }
+    out
+}
+
 fn macro_op(ws: &[String]) -> Vec<String> {
     let w: Vec<&str> = ws.iter().map(|s| s.as_str()).collect();
     match w.as_slice() {
+        ["msgrun", ctor, vt, k, tag0, step, kind, len] => {
+            if let (Some(k), Some(t0), Some((st, rev)), Some(len)) = (parse_nat(k), parse_nat(tag0), parse_step(step), parse_nat(len)) {
+                return vec!["msg".to_string(), ctor.to_string(), vt.to_string(), msg_items(k, t0, st, rev, kind, len)];
+            }
+            ws.to_vec()
+        }
+        ["viewrun", k, tag0, step, len, lookups] => {
+            if let (Some(k), Some(t0), Some((st, rev)), Some(len)) = (parse_nat(k), parse_nat(tag0), parse_step(step), parse_nat(len)) {
+                return vec!["view".to_string(), to_hex(&view_wire(k, t0, st, rev, len)), lookups.to_string()];
+            }
+            ws.to_vec()
+        }
         ["extendrun", v, k, tok] => {
             if let Some(k) = parse_nat(k) {
                 return vec!["extend".to_string(), v.to_string(), run_tokens(k, tok)];
@@ -234,6 +289,8 @@ pub fn auto_quiet(ws: &[&str]) -> bool {
         ["extendrun", _, k, _] => parse_nat(k).map(|k| k >= 20000).unwrap_or(false),
         ["newrun", k, _] => parse_nat(k).map(|k| k >= 20000).unwrap_or(false),
         ["rep", k, ..] => parse_nat(k).map(|k| k >= 20000).unwrap_or(false),
+        ["msgrun", _, _, k, ..] => parse_nat(k).map(|k| k >= 400).unwrap_or(false),
+        ["viewrun", k, ..] => parse_nat(k).map(|k| k >= 400).unwrap_or(false),
         _ => false,
     };
     head || ws.iter().any(|w| big_run(w)) || ws.iter().any(|w| big_part(w))
@@ -908,6 +965,15 @@ impl ScaleExec {
     }
 
     fn finalize(&self, mut so: StepOut) -> StepOut {
+        // an executor that reports one finding per element would print a million lines for a 65536-pair message
+        if so.violations.len() > 16 {
+            let more = so.violations.len() - 16;
+            so.violations.truncate(16);
+            if let Some(first) = so.violations.first().cloned() {
+                let tag = first.split(' ').next().unwrap_or("").to_string();
+                so.violations.push(format!("{} ... and {} more findings of this op", tag, more));
+            }
+        }
         if self.quiet {
             so.obs.clear();
         } else if self.terse {
